@@ -5,6 +5,7 @@
 #include "colvarbias_histogram.h"
 #include "colvarbias_abf.h"
 #include "colvarbias_restraint.h"
+#include "colvarbias_meta.h"
 #include "colvargrid.h"
 
 template <typename G> static void dump_grid(Ctx &c, G *g, char const *tag)
@@ -29,6 +30,24 @@ bool ops_bias(Ctx &c, Toks const &t)
     o.clear();
     for (size_t i = 0; i < h->grid->data.size(); i++) o.push_back(ftok(h->grid->data[i]));
     c.out("data", join(o));
+    return true;
+  }
+  if (t[0] == "mt.dump") {
+    colvarbias_meta *m = dynamic_cast<colvarbias_meta *>(cvm::bias_by_name(t[1]));
+    if (!m) { c.out("nhills", "snone"); return true; }
+    std::vector<std::string> o;
+    if (m->use_grids && m->hills_energy) for (size_t i = 0; i < m->hills_energy->nx.size(); i++) o.push_back(itok(m->hills_energy->nx[i]));
+    c.out("nx", join(o));
+    c.out("nhills", itok((long long) m->hills.size()));
+    c.out("noff", itok((long long) m->hills_off_grid.size()));
+    if (m->use_grids && m->hills_energy) {
+      o.clear(); for (size_t i = 0; i < m->hills_energy->data.size(); i++) o.push_back(ftok(m->hills_energy->data[i]));
+      c.out("gridE", join(o));
+      o.clear(); for (size_t i = 0; i < m->hills_energy_gradients->data.size(); i++) o.push_back(ftok(m->hills_energy_gradients->data[i]));
+      c.out("gridG", join(o));
+    }
+    o.clear(); for (auto const &h : m->hills) o.push_back(ftok(h.W));
+    c.out("hillw", join(o));
     return true;
   }
   if (t[0] == "r.dump") {
